@@ -48,3 +48,17 @@ Theorem C09_reader_monotone : forall p f ty s v s' t,
   read_val p f ty s = Ok (v, s') -> read_val p f ty (ext s t) = Ok (v, ext s' t).
 Proof. exact (fun p f ty => EXT_read_val p f ty). Qed.
 Print Assumptions C09_reader_monotone.
+
+(* tie to the code: the regenerated inventory of the panic-capable and allocation sites of the safe readers
+   (Generated/ReaderSites.v: every unwrap / expect / panic! / assert! / split_to / advance / copy_to_slice /
+   slice index / with_capacity / vec![0; n] / reserve / read_to_end / conversion / push / loop / integer cast /
+   arithmetic / unsafe of the sync and async input protocols, their rw_ext / varint_ext helpers and the default
+   skippers, in source order) is exactly the list Thrift/Sites.v accounts for, and every account is admissible
+   for its kind of site (a site that can panic is guarded by a test the named model function transcribes, or is
+   a Panic outcome of the model, or lies outside the readers; an allocation is charged by Thrift/Alloc.v or
+   constant).  A new unwrap / index / allocation in a reader breaks this theorem. *)
+From PV Require Import Generated.ReaderSites Thrift.Sites Proofs.SitesP.
+Theorem C09_site_inventory :
+  map fst accounted = reader_sites /\ forallb justified accounted = true.
+Proof. exact (conj sites_accounted sites_justified). Qed.
+Print Assumptions C09_site_inventory.
